@@ -122,7 +122,8 @@ func TransformModuleFilesToModel( //nolint:funlen,gocognit,cyclop
 				}
 			} else {
 				transformErrors = multierror.Append(transformErrors, &ModuleTransformationSingleError{
-					Msg: "file is not a module",
+					Msg:  "file is not a module",
+					File: module.Name,
 				})
 				continue
 			}
